@@ -80,6 +80,9 @@ def real_records(ctx):
         combos.append((small[gi % len(small)], g, wins[gi % len(wins)]))
     for wi, w in enumerate(wins):
         combos.append((small[(wi + 1) % len(small)], grids[0], w))
+    # a fine grid on every small input (free energies within +-0.005 of zero at some node: where a rounding shows)
+    for x in small:
+        combos.append((x, ("3", "9", "0.05"), wins[len(combos) % len(wins)]))
     for x in ins:
         combos.append((x, grids[0], wins[0]))
         for _ in range(5 if ctx.thorough() else 1):
